@@ -28,6 +28,7 @@ def build(H, tier, seed):
     T.involution_lemmas(H, tier)
     from contracts import access_c as A
     A.vc_grade(H)
+    A.vc_grade_layouts(H)
     from contracts import dispatch_c as D
     D.vc_binary_chain(H)
     D.vc_unary_chain(H)
@@ -36,8 +37,16 @@ def build(H, tier, seed):
     G.vc_func_builder(H)
 
 
+def _gradesel_jobs(tier, seed):
+    cfgs = [dict(p=3), dict(p=2, q=0, r=1), dict(name='2DPGA'), dict(p=2)] if tier == 'quick' else \
+        [dict(p=3), dict(p=2, q=0, r=1), dict(name='2DPGA'), dict(p=2), dict(p=4), dict(p=3, q=1), dict(name='3DPGA'), dict(p=1, q=1, r=1), dict(p=4, q=1)]
+    n = 3 if tier == 'quick' else 12
+    return [{'name': 'gradesel', 'bound': 'dense-canonical / dense-binary / dense-reversed / dense-shuffled / sparse / permuted layouts x up to 24 grade subsets x both call forms; pairwise distinct exact coefficients',
+             'job': {'kind': 'gradesel', 'module': 'standins.jobs2', 'configs': [dict(c, random=n) for c in cfgs], 'seed': seed}}]
+
+
 def standins(tier, seed):
-    return K.symcoef_jobs('C04', ['add', 'sub', 'neg', 'reverse', 'involute', 'conjugate'], tier, seed)
+    return K.symcoef_jobs('C04', ['add', 'sub', 'neg', 'reverse', 'involute', 'conjugate'], tier, seed) + _gradesel_jobs(tier, seed)
 
 
 replay = K.replay_operator
